@@ -173,7 +173,9 @@ func (c *RepoCache) lock(events chan BuildEvent) error {
 		return err
 	}
 
-	f, err := c.repo.LocalStorage().Create(lockfile)
+	// Write the lock into a temporary file and rename it, so that the lock file always holds a
+	// complete pid: a process dying in the middle can't leave an empty or truncated lock behind.
+	f, err := c.repo.LocalStorage().TempFile("", lockfile)
 	if err != nil {
 		return err
 	}
@@ -182,10 +184,17 @@ func (c *RepoCache) lock(events chan BuildEvent) error {
 	_, err = f.Write([]byte(pid))
 	if err != nil {
 		_ = f.Close()
+		_ = c.repo.LocalStorage().Remove(f.Name())
 		return err
 	}
 
-	return f.Close()
+	err = f.Close()
+	if err != nil {
+		_ = c.repo.LocalStorage().Remove(f.Name())
+		return err
+	}
+
+	return c.repo.LocalStorage().Rename(f.Name(), lockfile)
 }
 
 func (c *RepoCache) Close() error {
@@ -296,11 +305,11 @@ func repoIsAvailable(repo repository.RepoStorage, events chan BuildEvent) error 
 		}
 
 		pid, err := strconv.Atoi(string(buf))
-		if err != nil {
-			return err
-		}
 
-		if process.IsRunning(pid) {
+		// A lock file that doesn't hold a pid can't belong to a live process (the lock is written
+		// atomically): it's a leftover, for instance of a process killed while writing it with an
+		// older version. It's stale, like the lock of a process that isn't running any more.
+		if err == nil && process.IsRunning(pid) {
 			return fmt.Errorf("the repository you want to access is already locked by the process pid %d", pid)
 		}
 
